@@ -27,7 +27,7 @@ CLAIM = {
              "(R2) nothing else writes into the crop directory; (R3) the wait-mode load is dominated by an exists() poll of the same final name; "
              "(R4) nothing reachable from a grower, a poller or the Reaper's load path removes files. With rename atomicity as trusted base these make every "
              "observation 'absent or complete' under every interleaving, so the schedule quantifier is discharged by structure rather than sampled. "
-             "Not decided: file-system atomicity itself, determinism of the user function."),
+             "Also: the unique component of the temporary must be computed per write (a memoised helper is inherited by forked workers), and for wait=True the poll loop has no feasible exit by exception (isinstance on the constant True is decided: bool is an int). Not decided: file-system atomicity itself, determinism of the user function."),
     "note": "Trusted base: POSIX rename atomicity within a directory; CPython executes the parsed ast; idiom tables (unique-name sources, listing filters) in xyzsa/props/c11.py. Unknown idioms end as exit 2.",
     "technique": "static analysis: CFG must-complete-before (path) rules, who-may-write / who-may-remove call-graph rules, constant folding of name templates against reader patterns",
 }
